@@ -13,15 +13,22 @@ for name in sorted(os.listdir(SEEDED)):
     if not os.path.isdir(d) or (only and name not in only and name.split('-')[0] not in only):
         continue
     prop = name.split('-')[0]
+    meta = json.load(open(os.path.join(d, 'meta.json'))) if os.path.exists(os.path.join(d, 'meta.json')) else {}
+    checks = meta.get('checks', [prop])
     try:
         subprocess.run(['git', '-C', '/repo', 'apply', os.path.join(d, 'patch.diff')], check=True)
-        p = subprocess.run([os.path.join(HERE, 'check'), prop, '--tier', 'quick'], capture_output=True, text=True, cwd=HERE)
-        viol = [l for l in p.stdout.splitlines() if l.startswith('VIOLATION')]
-        what = [l.strip()[:300] for l in p.stdout.splitlines() if l.startswith('  what:')]
-        out[name] = {'property': prop, 'exit': p.returncode, 'detected': p.returncode == 1 and bool(viol), 'first_violation': (what or [''])[0]}
+        out[name] = {'property': prop, 'by_check': {}, 'detected': False}
+        for chk in checks:
+            p = subprocess.run([os.path.join(HERE, 'check'), chk, '--tier', 'quick'], capture_output=True, text=True, cwd=HERE)
+            viol = [l for l in p.stdout.splitlines() if l.startswith('VIOLATION')]
+            what = [l.strip()[:300] for l in p.stdout.splitlines() if l.startswith('  what:')]
+            det = p.returncode == 1 and bool(viol)
+            out[name]['by_check'][chk] = {'exit': p.returncode, 'detected': det, 'first_violation': (what or [''])[0]}
+            out[name]['detected'] = out[name]['detected'] or det
+            subprocess.run('rm -f %s/replays/%s-*.json' % (HERE, chk), shell=True)
+        out[name]['exit'] = max(v['exit'] == 1 for v in out[name]['by_check'].values()) and 1 or max(v['exit'] for v in out[name]['by_check'].values())
     finally:
         subprocess.run(['git', '-C', '/repo', 'checkout', '--', '.'])
-        subprocess.run('rm -f %s/replays/%s-*.json' % (HERE, prop), shell=True)
     print(name, out[name]['exit'], out[name]['detected'], flush=True)
 old = {}
 rp = os.path.join(SEEDED, 'RESULTS.json')
